@@ -1,10 +1,11 @@
-// Package c07: harness for property C07 (stub until built).
+// Package c07: harness for property C07 (DA challenge state machine and deadlines).
+// The driver, the projection and the generators are shared with C08 in package dacommon.
 package c07
 
-import "fmt"
+import "verifharness/dacommon"
 
-// Run generates n cases from seed, runs them on the real application and writes
-// cases_*.v and stats.json into outDir.
+// Run generates n cases from seed (after the fixed corpus), runs them on the real
+// application and writes cases_*.v and stats.json into outDir.
 func Run(seed int64, n int, outDir string) error {
-	return fmt.Errorf("c07: harness not built yet")
+	return dacommon.Run(dacommon.C07, seed, n, outDir)
 }
